@@ -7,11 +7,19 @@
    node leaves the node's API object WITH pod CIDRs; one fault-free ProcCC on a ClusterCIDR whose deletion was requested,
    that carries only the controller's finalizer and on whose entry no node depends, removes the object from the API and
    the entry from the map.
-   Not proved (checked by the monitor after a fair drain of every history): the measure argument as one
-   theorem over drain schedules (bounded convergence);
+   The measure argument is proved for the node half (Conv_proofs.v, rounds_converge): from a QUIET world (controller and
+   informers running, node feed empty, the node store equal to the API objects, no node being deleted) at most
+   (number of nodes without pod CIDRs) + 1 fair fault-free rounds -- each node still without pod CIDRs is fetched, its
+   work item run with a successful write, the resulting notification delivered -- reach a SETTLED world: every node
+   still without pod CIDRs was processed, in a state that differs from the final one in search cursors only, and refused
+   there, i.e. no entry offered for its labels had room (C05).  A round in which something is servable serves at least
+   one node (the count strictly decreases); a round that serves nobody changes no used set.
+   Not proved: the same for arbitrary (non-quiet) starting worlds and real queue order -- fairness is represented by the
+   round schedule, the rate limiter by Tick; the ClusterCIDR-deletion half as a measure (its step is proved);
    fairness and timing of the real rate limiter are represented only by Tick.
    Recorded residue: K-AMB. *)
-From NIPAM Require Import Sys Alloc_proofs Sys_proofs Inv_proofs Complete_proofs Path_proofs Progress_proofs Conv_proofs.
+From NIPAM Require Import Sys Alloc_proofs Sys_proofs Inv_proofs World_proofs Complete_proofs Path_proofs NoPanic_proofs Progress_proofs Conv_proofs Term_proofs.
+From Coq Require Import Lia.
 Open Scope N_scope.
 
 Theorem C11_partial_failed_node_item_requeued :
@@ -66,3 +74,48 @@ Theorem C11_partial_unneeded_deleting_clustercidr_is_released :
   exists m', w_ctl w' = Some m' /\ delete_cluster_cidr m o = (m', Ok tt).
 Proof. exact proc_cc_releases. Qed.
 Print Assumptions C11_partial_unneeded_deleting_clustercidr_is_released.
+
+(* ---------- the measure argument (node half) ---------- *)
+Theorem C11_bounded_convergence_of_fair_rounds :
+  forall po lab n w, Quiet w -> (length (unserved_nodes w) <= n)%nat ->
+  exists k, (k <= S n)%nat /\ Quiet (Nat.iter k (round po lab) w) /\ settled po lab (Nat.iter k (round po lab) w).
+Proof. exact rounds_converge. Qed.
+Print Assumptions C11_bounded_convergence_of_fair_rounds.
+
+(* one round: the count of nodes without pod CIDRs goes down, or the world is settled *)
+Theorem C11_each_round_serves_someone_or_settles :
+  forall po lab w, Quiet w ->
+  Quiet (round po lab w) /\
+  ((length (unserved_nodes (round po lab w)) < length (unserved_nodes w))%nat \/ settled po lab (round po lab w)).
+Proof. exact round_spec. Qed.
+Print Assumptions C11_each_round_serves_someone_or_settles.
+
+(* non-vacuity: a reachable world is quiet -- one ClusterCIDR with two blocks, three nodes delivered to the controller --
+   and one round serves two of them; the third stays without pod CIDRs (settled: refused) *)
+Example C11_quiet_world_nonvacuous :
+  let po0 : parse_oracle := fun _ => Some [] in
+  let lab0 : label_oracle := fun k => [cl k] in
+  let ops := [UCreateCC (mkCCObj [99] (FOk (mkCidr V4 167772160 27)) FEmpty 4 (Some [107]) [] false 1 0 0);
+              Construct None None [UOk]; StartInformers; ProcCC UOk;
+              UCreateNode [110;49] [] []; UCreateNode [110;50] [] []; UCreateNode [110;51] [] [];
+              DeliverNode; DeliverNode; DeliverNode; DeliverCC] in
+  let w0 := run po0 lab0 init_world ops in
+  Quiet w0 /\
+  map (fun a => (an_name a, an_cidrs a)) (w_nodes (round po0 lab0 w0)) =
+    [([110;49], [PGood (mkCidr V4 167772160 28) true]); ([110;50], [PGood (mkCidr V4 167772176 28) true]); ([110;51], [])].
+Proof.
+  cbv zeta. split; [|vm_compute; reflexivity].
+  match goal with |- Quiet (run ?po ?lab init_world ?ops) =>
+    assert (Hwf : Forall wf_op ops) end.
+  { repeat constructor; cbn; try (intros ? E; discriminate E);
+      try (unfold good_obj, good_field, good_range, wf_cidr; cbn; repeat split; try lia; try discriminate; intros [? _]; discriminate). }
+  constructor.
+  - apply run_winv; [apply winv_init|exact Hwf].
+  - apply run_wk; [apply winv_init|intros m E; discriminate E|exact Hwf].
+  - eexists. vm_compute. reflexivity.
+  - vm_compute. reflexivity.
+  - vm_compute. reflexivity.
+  - vm_compute. reflexivity.
+  - vm_compute. repeat constructor; cbn; intuition discriminate.
+  - intros a Ha. vm_compute in Ha. destruct Ha as [<-|[<-|[<-|[]]]]; reflexivity.
+Qed.
